@@ -1223,7 +1223,7 @@ def eval_cost(run, limit=10):
 
 # ------------------------------------------------------------------ C05: deviations from XPath 1.0 (classifiers)
 FINDINGS.update({
-    'D34': 'string() of negative zero is "-0" (scalar library, C09)',
+    'D34b': 'string() of negative zero is "-0" (scalar library, C09)',
 })
 
 def classify_c05(rows, expr, impl, spec):
@@ -1239,8 +1239,12 @@ def classify_c05(rows, expr, impl, spec):
         return 'D19'
     if isinstance(impl, str) and isinstance(spec, str) and impl.startswith('s:') and spec.startswith('s:') and \
             impl[2:].replace('45,48', '48') == spec[2:]:
-        return 'D34'
-    if re.search(r'-\s*(0+\.?0*|\.0+)(?![0-9.])', expr) or re.search(r'\*\s*-|-\s*\(|div\s*-|mod', expr) and 'string' in expr or 'concat' in expr and '-' in expr:
-        # a negative zero is converted to a string somewhere inside the expression
-        return 'D34'
+        return 'D34b'
+    # a negative zero is converted to a string somewhere INSIDE the expression: needs a syntactic source of -0 AND a
+    # string-typed consumer (narrow on purpose: `concat` with a hyphen somewhere is not enough)
+    source = re.search(r'-\s*(0+\.?0*|\.0+)(?![0-9.])', expr) or re.search(r'\*\s*-|-\s*\(|div\s*-|\bmod\b|round\s*\(|ceiling\s*\(', expr)
+    consumer = re.search(r'\b(string|concat|string-length|contains|starts-with|substring|substring-before|substring-after|normalize-space|translate)\s*\(', expr) \
+        or re.search(r'[=<>]\s*["\']|["\']\s*[=<>!]', expr)
+    if source and consumer:
+        return 'D34b'
     return None
